@@ -763,6 +763,13 @@ def gen_udp():
         if m_src:
             ids_shared = bool(re.search(r"\bstatic\s+" + re.escape(m_src.group(1)) + r"\s*:\s*AtomicU16\b", quic))
     one_table = bool(re.search(r"let\s+mut\s+f\s*:\s*Fragments\s*<\s*Frame\s*>\s*=\s*Fragments\s*::\s*new", qt)) and len(re.findall(r"\.\s*reassemble\s*\(", qt)) == 1
+    # the loop that serves every session of a connection must never wait for one of them: frames go into the session's
+    # queue with try_send (full queue: the frame is dropped), never with send(..).await
+    demux_never_waits = bool(re.search(r"\.\s*try_send\s*\(\s*frame\s*\)", qt)) and not re.search(r"\.\s*send\s*\(\s*frame\s*\)\s*\.\s*await", qt) \
+        and not re.search(r"\.\s*send_timeout\s*\(|\.\s*reserve\s*\(\s*\)\s*\.\s*await|blocking_send", qt)
+    cq = fn_body(quic, "create_quic_frames")
+    mcap = re.search(r"channel\s*\(\s*(\d+)\s*\)", cq)
+    qcap = int(mcap.group(1)) if mcap else 0
     B = lambda b: "true" if b else "false"
     out = "(* GENERATED by gen/translate.py from src/listeners/reverse.rs, src/common/udp.rs, src/common/quic.rs.  Do not edit. *)\n"
     out += "Definition reverse_first_datagram_forwarded : bool := %s.\n" % B(first_forwarded)
@@ -771,6 +778,8 @@ def gen_udp():
     out += "Definition quic_frames_dispatched_by_session_id : bool := %s.\n" % B(by_sid)
     out += "Definition quic_fragment_ids_shared_by_all_writers : bool := %s.\n" % B(ids_shared)
     out += "Definition quic_one_reassembly_table_per_connection : bool := %s.\n" % B(one_table)
+    out += "Definition quic_demux_never_waits_for_a_session : bool := %s.\n" % B(demux_never_waits)
+    out += "Definition quic_session_queue_capacity : nat := %d.\n" % qcap
     return out
 
 
